@@ -64,7 +64,7 @@ struct RxHarness : HarnessBase {
 		heap().blocks.clear(); // arena blocks must not reach ::free
 		world_reset();
 		memset(arena, 0, arena_top); arena_top = 0;
-		memset(store, 0, sizeof store); new(store) Tree(BumpAlloc{}); alive = true; ref.clear();
+		memset(store, 0xA5, sizeof store); new(store) Tree(BumpAlloc{}); alive = true; ref.clear();
 	}
 	enum { INSERT, FOI, ERASE };
 	void ops(std::vector<uint32_t> &out) {
